@@ -15,9 +15,17 @@ ROUTES = ("attr", "dotted", "ctor", "load_tree", "loads")
 DKEYS = ("k", "a.b")
 
 
+def _hop_schema():
+    hop = Schema()
+    hop.ttl = IntField(min=0, default=0)
+    return hop
+
+
 def _item_schema(nm, with_dd=True):
     item = Schema()
     item.v = IntField(min=0, default=0, name=nm)
+    item.inner.p = IntField(min=0, default=0)            # a sub-configuration BELOW a list item
+    item.inner.hops = ListField(_hop_schema(), default=lambda: [])
     if with_dd:
         item.dd = DictField(StringField(), IntField(min=0), default=lambda: {})
     return item
@@ -40,7 +48,7 @@ def _build(friendly: bool, pos: str = "*"):
         schema.ct = Item
     if pos in ("s.ct2.v", "*"):
         schema.s.ct2 = Item
-    if pos in ("items", "items.dd", "items_item", "*"):
+    if pos in ("items", "items.dd", "items_item", "items.inner", "items.hops", "*"):
         schema.items = ListField(_item_schema(nm), default=lambda: [])
     if pos in ("titems", "titems.dd", "*"):
         schema.titems = ListField(Item, default=lambda: [])
@@ -95,6 +103,17 @@ def _run(pos: str, route_i: int, bad_i: int, n: int, i: int, ki: int, friendly: 
         keys = pos.split(".")
         leaf = [{"v": 1 if dup else j + 1} for j in range(n)]
         leaf[i] = {"v": bad}
+    elif pos in ("items.inner", "items.hops"):
+        if not 0 <= i < n:
+            skip("index")
+        keys = ["items"]
+        leaf = [{"v": j + 1} for j in range(n)]
+        if pos == "items.inner":
+            want = "items[" + str(i) + "].inner.p"
+            leaf[i] = {"v": 1, "inner": {"p": bad}}
+        else:
+            want = "items[" + str(i) + "].inner.hops[1].ttl"
+            leaf[i] = {"v": 1, "inner": {"hops": [{"ttl": 1}, {"ttl": bad}]}}
     elif pos in ("items.dd", "titems.dd"):
         if not 0 <= i < n:
             skip("index")
@@ -138,7 +157,12 @@ def _run(pos: str, route_i: int, bad_i: int, n: int, i: int, ki: int, friendly: 
                         target = getattr(lst_owner, keys[-1])[i]
                         if route == "dotted":
                             skip("no dotted syntax for list items")
-                        if pos.endswith(".dd"):
+                        if pos == "items.inner":
+                            target.inner.p = bad
+                        elif pos == "items.hops":
+                            target.inner.hops = [{"ttl": 1}, {"ttl": 2}]
+                            target.inner.hops[1].ttl = bad
+                        elif pos.endswith(".dd"):
                             target.dd[key] = bad
                         else:
                             target.v = bad
@@ -177,7 +201,7 @@ def _run(pos: str, route_i: int, bad_i: int, n: int, i: int, ki: int, friendly: 
     return True
 
 
-POSITIONS = ("lst", "a", "s.b", "s.t.c", "ct.v", "s.ct2.v", "items", "titems", "pitems", "s.items2", "items.dd", "titems.dd", "d", "s.d2")
+POSITIONS = ("items.inner", "items.hops", "lst", "a", "s.b", "s.t.c", "ct.v", "s.ct2.v", "items", "titems", "pitems", "s.items2", "items.dd", "titems.dd", "d", "s.d2")
 
 
 def _make(pos: str):
@@ -186,7 +210,7 @@ def _make(pos: str):
 
     @obligation(prop="C15", name="reject_path_" + pos.replace(".", "_"), group="reject_path",
                 sites=("rejected", "type", "path"), encodes=ENC, stubs=("MemFormat",),
-                budget={"quick": 200, "thorough": 500},
+                budget={"quick": 500, "thorough": 900},
                 what="offending values of 8 shapes at position %s via attribute/dotted/constructor/load_tree/loads: "
                      "ValidationError whose ref_path and text name the full path" % pos)
     def ob(route_i: int, bad_i: int, n: int, i: int, ki: int, friendly: bool, dup: bool) -> bool:
@@ -212,7 +236,7 @@ for _p in POSITIONS:
     _make(_p)
 
 
-WRONG = (5, "x", [1], None, True, 1.5)
+WRONG = (5, "x", [1], None, True, 1.5, (), (1, 2), {3})
 SHAPE_POS = ("s", "s.t", "ct", "items", "items_item", "d")
 
 
@@ -221,12 +245,12 @@ SHAPE_POS = ("s", "s.t", "ct", "items", "items_item", "d")
                      "cincoconfig.core.Config._process_includes"],
             budget={"quick": 120, "thorough": 300},
             examples=({"pos_i": 0, "route_i": 0, "bad_i": 0}, {"pos_i": 0, "route_i": 4, "bad_i": 5}),
-            what="wrongly shaped values (int, str, list, None, bool, float) given to a sub-configuration, a config "
+            what="wrongly shaped values (int, str, list, None, bool, float, empty tuple, pair, set) given to a sub-configuration, a config "
                  "type, a list of configurations (whole value and single item) or a typed dict via "
                  "attribute/constructor/load_tree/loads: ValidationError naming that field, never another type")
 def reject_wrong_shape(pos_i: int, route_i: int, bad_i: int) -> bool:
     """
-    pre: 0 <= pos_i < 6 and 0 <= route_i < 5 and 0 <= bad_i < 6
+    pre: 0 <= pos_i < 6 and 0 <= route_i < 5 and 0 <= bad_i < 9
     post: _
     """
     pos = _pick(SHAPE_POS, pos_i)
@@ -237,16 +261,16 @@ def reject_wrong_shape(pos_i: int, route_i: int, bad_i: int) -> bool:
     schema, Item = _build(False, pos)
     mem = MemStore()
     if pos == "items_item":
-        if bad is None or isinstance(bad, list):
-            skip("None / list are not single wrong items of interest")
+        if bad is None or isinstance(bad, (list, tuple, set)):
+            skip("None / containers are not single wrong items of interest")
         want, keys, leaf = ("items", "items[1]"), ["items"], [{"v": 1}, bad]
     elif pos == "items":
-        if isinstance(bad, list) or bad is None:
-            skip("lists and None are acceptable list values")
+        if isinstance(bad, (list, tuple)) or bad is None:
+            skip("lists, tuples and None are acceptable list values")
         want, keys, leaf = ("items",), ["items"], bad
     elif pos == "d":
-        if bad is None:
-            skip("None is acceptable")
+        if bad is None or bad == ():
+            skip("None and an empty sequence of pairs are acceptable")
         want, keys, leaf = ("d",), ["d"], bad
     else:
         want, keys, leaf = (pos,), pos.split("."), bad
